@@ -4294,6 +4294,17 @@ class Macro:
         ProgramData.imbue(self, DTAG.SOURCE_LINE, name_token.line)
         ProgramData.imbue(self, DTAG.NAME, "macro " + self.name)
 
+    def _substitute_passed_through(self, value: lark.Tree, parse_ctx: "ParseCtx"):
+        if value.data in ("identifier_const", "math_var"):
+            try:
+                return parse_ctx._lookup_named_entity(MacroArgumentKind.EXPR, value.children[0])
+            except UndefinedReferenceError:
+                return value
+        if value.data == "concat_expr" or value.data in all_sum_expr_nodes:
+            # (a new tree: the argument belongs to the calling macro's body, which all its expansions share)
+            return lark.Tree(value.data, [self._substitute_passed_through(x, parse_ctx) if isinstance(x, lark.Tree) else x for x in value.children], value.meta)
+        return value
+
     def bind_arguments_for(self, input_trees: List[lark.Tree], parse_ctx: "ParseCtx"):
         bound_arguments = {}
         for argspec, value in zip(self.arguments, input_trees):
@@ -4307,13 +4318,11 @@ class Macro:
                 MacroArgumentKind.MATCH: ("regex", "end_expr", "concat_expr", "string_const", "string_case_const", "binary_regex", "binary_string_const"),
                 MacroArgumentKind.INTEXPR: ("string_const", "bool_const", "number_const", "char_const", "identifier_const", *all_sum_expr_nodes)
             }[argspec.kind]
-            if argspec.kind in (MacroArgumentKind.MATCH, MacroArgumentKind.INTEXPR) and value.data == "identifier_const":
-                # Passing one of the calling macro's own match/expr arguments through: substitute it now, while the name still
-                # refers to the caller's argument (inside the callee the same name may be bound to the callee's own argument)
-                try:
-                    value = parse_ctx._lookup_named_entity(MacroArgumentKind.EXPR, value.children[0])
-                except UndefinedReferenceError:
-                    pass
+            if argspec.kind in (MacroArgumentKind.MATCH, MacroArgumentKind.INTEXPR):
+                # Passing the calling macro's own match/expr arguments through, alone or inside a concatenation / math expression:
+                # substitute them now, while the names still refer to the caller's arguments (inside the callee the same name may
+                # be bound to the callee's own argument, or to nothing at all)
+                value = self._substitute_passed_through(value, parse_ctx)
             if value.data not in allowed_types:
                 raise IllegalParseTree("Invalid argument type for argument " + argspec.name, value)
             if argspec.should_early_bind():
